@@ -25,12 +25,6 @@ import cutadapt.cli as _cli
 import cutadapt.predicates as _predicates
 from cutadapt.files import FileFormat, OutputFiles
 
-try:
-    from crosshair import realize as _realize
-except Exception:  # pragma: no cover
-    def _realize(x):
-        return x
-
 try:  # building the pipeline is concrete work: do it outside CrossHair's tracer (speed only, no semantic effect)
     from crosshair.tracers import NoTracing, is_tracing
 except Exception:  # pragma: no cover
@@ -308,6 +302,7 @@ NAME_ROWS = [("r", False), ("r 1:N:0:ACGT", False), ("r 1:Y:0:ACGT", True), ("r:
 # Expected errors of a non-empty read (row chosen by a symbolic int); with lengths 1..3 these give error rates
 # below, at and above 0.5 and expected errors below, at and above 1.0
 EE_VALUES = [0.0, 1.0, 1.5, 2.5]
+EE_ROWS = [(v,) for v in EE_VALUES]
 
 
 class Cell:
@@ -322,14 +317,15 @@ class Cell:
 
     def get(self):
         if self.pending:
-            # realize(): make the row number a plain int first (CrossHair forks once per possible row).  Indexing a list
-            # of floats with a symbolic int would otherwise produce a SYMBOLIC float, and with it the IEEE float model.
-            self.value = self.table[_realize(self.index)]
+            # Rows must be tuples: indexing a list of tuples with a symbolic int makes CrossHair fork over the possible
+            # rows and hand out the concrete row; a list of plain floats would give a SYMBOLIC float (and with it the slow
+            # IEEE float model), and crosshair.realize() on the row number explores many more paths than this fork.
+            self.value = self.table[self.index]
             self.pending = False
         return self.value
 
 
-FULL_TABLES = {"t": TEXT_ROWS, "c": NAME_ROWS, "e": EE_VALUES}
+FULL_TABLES = {"t": TEXT_ROWS, "c": NAME_ROWS, "e": EE_ROWS}
 
 
 class Features:
@@ -353,7 +349,7 @@ class Features:
 
     @property
     def ee(self):
-        return self.ee_cell.get() if self.length > 0 else 0.0
+        return self.ee_cell.get()[0] if self.length > 0 else 0.0
 
 
 class Q(str):
@@ -367,7 +363,7 @@ def expected_errors_stub(qualities):
     in the predicates are the native IEEE ones (CrossHair 0.0.110 does not finish with symbolic floats here)."""
     if len(qualities) == 0:
         return 0.0
-    return qualities.features.ee_cell.get()
+    return qualities.features.ee_cell.get()[0]
 
 
 _predicates.expected_errors = expected_errors_stub
@@ -584,7 +580,7 @@ def tables_for(spec):
             e = [1, 2, 3]
         else:
             e = [0, 1, 2, 3]
-        _TABLES[key] = {"t": [TEXT_ROWS[i] for i in t], "c": [NAME_ROWS[i] for i in c], "e": [EE_VALUES[i] for i in e]}
+        _TABLES[key] = {"t": [TEXT_ROWS[i] for i in t], "c": [NAME_ROWS[i] for i in c], "e": [EE_ROWS[i] for i in e]}
     return _TABLES[key]
 
 
